@@ -1,1 +1,56 @@
-(* C06: under construction *)
+(* C06 -- json never panics, faults, overflows the stack or hangs.
+   Encode side: the cycle detection of the encoder (json/codec.go enterCycle/leaveCycle and its callers in
+   json/encode.go) is modelled by hand over abstract heap graphs (Json/CycleModel.v) and tied to /repo on every run by
+   correspondence: the harness builds cyclic, shared and deep Go values, reads the heap graph back by reflection,
+   and the extracted model must give the verdict of the real encoder, down to the object that reports the cycle.
+   Decode side: corollaries of C05 / C17 / C11 about the REGENERATED translation of json/parse.go and the
+   Tokenizer / Decoder models. Memory faults, the Go runtime stack limit and the reflect/unsafe layer are
+   observed by the harness (out-of-process), not modelled. *)
+From Verif Require Import Json.CycleModel Json.CycleSpec Json.CycleProofs Json.TotalSpec Json.TotalProofs.
+
+(* the mutable ptrSeen map with its deferred deletions behaves as a set handed down the recursion:
+   when a call returns, the set is what it was (no stale entry, no lost entry), whatever the outcome *)
+Theorem cycle_set_discipline : refine_statement.
+Proof. exact CycleProofs.enc_refine. Qed.
+Theorem cycle_depth_instrumented : instrument_statement.
+Proof. exact CycleProofs.encd_fst. Qed.
+
+(* (a) termination: EVERY well-formed finite graph, cyclic or not, every root, every threshold: a recursion depth of
+   (thr + nodes + 1) * (nodes + 2) is never exhausted *)
+Theorem cycle_total : total_statement.
+Proof. exact CycleProofs.total. Qed.
+Theorem cycle_fuel_irrelevant : fuel_irrelevant_statement.
+Proof. exact CycleProofs.fuel_irrelevant. Qed.
+
+(* (b) soundness: a reported cycle is a cycle, reachable from the root, reported at a pointer, slice or map; hence no
+   false positive on acyclic graphs, however much sharing they have *)
+Theorem cycle_sound : sound_statement.
+Proof. exact CycleProofs.sound. Qed.
+(* (c) completeness: the traversal completes only if no cycle is reachable *)
+Theorem cycle_complete : complete_statement.
+Proof. exact CycleProofs.complete. Qed.
+(* together: the verdict is exactly: a cycle is reachable from the root *)
+Theorem cycle_decides : decides_statement.
+Proof. exact CycleProofs.decides. Qed.
+
+(* stack safety for cyclic inputs: the number of pointers, slices and maps on the path being encoded never exceeds
+   startDetectingCyclesAfter + number of tracked objects + 1, for every graph *)
+Theorem cycle_depth_bound : depth_bound_statement.
+Proof. exact CycleProofs.depth_bound. Qed.
+
+(* what is NOT bounded (known finding F41): acyclic nesting. A chain of n pointers is encoded with recursion depth
+   exactly n + 1, so no bound independent of the value exists *)
+Theorem acyclic_depth_is_nesting_depth : chain_depth_statement.
+Proof. exact CycleProofs.chain_depth. Qed.
+Theorem acyclic_depth_bounded_refuted : ~ acyclic_depth_bounded_statement.
+Proof. exact CycleProofs.acyclic_depth_bounded_refuted. Qed.
+
+(* decode side: every byte string gets an answer *)
+Theorem valid_total : valid_total_statement.
+Proof. exact TotalProofs.valid_total. Qed.
+Theorem parse_value_total : parse_value_total_statement.
+Proof. exact TotalProofs.parse_value_total. Qed.
+Theorem tokenizer_total : tokenizer_total_statement.
+Proof. exact TotalProofs.tokenizer_total. Qed.
+Theorem decoder_total : decoder_total_statement.
+Proof. exact TotalProofs.decoder_total. Qed.
